@@ -47,12 +47,31 @@ fn host_need_bound(c: &SeqCase) -> u64 {
     g + g / 8 + g / (cs / 8) + 96
 }
 
+/// l1_short image whose L1 table cannot be extended in place: the entries the virtual size needs
+/// occupy more clusters than the table the header describes
+fn l1_short_overflows(c: &SeqCase) -> bool {
+    match &c.layers[0] {
+        crate::case::LayerSpec::Built(s) if s.l1_short => {}
+        _ => return false,
+    }
+    let built = match crate::engine::build_layers(&c.layers[..1]) {
+        Ok(b) => b,
+        Err(_) => return true,
+    };
+    let h = match crate::spec::layout::parse_header(&built.bytes[0]) {
+        Ok(h) => h,
+        Err(_) => return true,
+    };
+    let cs = h.cluster_size();
+    let owned = std::cmp::max((h.l1_size as u64 * 8).div_ceil(cs), 1);
+    let needed = h.size.div_ceil(cs).div_ceil(cs / 8);
+    (needed * 8).div_ceil(cs) > owned
+}
+
 fn case_tags(c: &SeqCase) -> Vec<String> {
     let mut t = Vec::new();
-    if let crate::case::LayerSpec::Built(s) = &c.layers[0] {
-        if s.l1_short {
-            t.push("image:l1_short".to_string());
-        }
+    if l1_short_overflows(c) {
+        t.push("image:l1_short".to_string());
     }
     if let Some(cov) = initial_reftable_coverage(c) {
         if host_need_bound(c) >= cov {
@@ -67,14 +86,6 @@ fn enlarge(c: &mut SeqCase, raw: &RawCase, max_bs_bits: u8, excl: &Exclusions) {
     use crate::case::LayerSpec;
     let no_rt_growth = excl.is_active(K_REFTABLE_GROWTH);
     let no_l1_growth = excl.is_active(K_L1_GROWTH);
-    if no_l1_growth {
-        if let LayerSpec::Built(s) = &mut c.layers[0] {
-            if s.l1_short {
-                s.l1_short = false;
-                c.excluded.push(K_L1_GROWTH.to_string());
-            }
-        }
-    }
     let cb = c.layers[0].cluster_bits();
     let cs = 1u64 << cb;
     let order = c.layers[0].refcount_order();
@@ -119,6 +130,14 @@ fn enlarge(c: &mut SeqCase, raw: &RawCase, max_bs_bits: u8, excl: &Exclusions) {
                 }
                 _ => break,
             }
+        }
+    }
+    // L1 growth beyond the clusters the short table owns is a known finding; growth inside them
+    // (the header's l1_size is extended in place) stays in the domain
+    if no_l1_growth && l1_short_overflows(c) {
+        if let LayerSpec::Built(s) = &mut c.layers[0] {
+            s.l1_short = false;
+            c.excluded.push(K_L1_GROWTH.to_string());
         }
     }
     // re-target the writes: march through the virtual disk
